@@ -182,6 +182,13 @@ class RepoMaterial:
                     'EI', CIMInstance('VF_Other', properties=[
                         ('N', Uint32(1)), ('S', cimgen.string(rng))]),
                     embedded_object='instance'))
+            if rng.random() < 0.25:
+                props.append(CIMProperty(
+                    'EIA', [CIMInstance('VF_Other', properties=[
+                        ('N', Uint32(j)), ('S', cimgen.string(rng))])
+                        for j in range(rng.choice([0, 0, 1, 2]))],
+                    type='string', is_array=True,
+                    embedded_object='instance'))
             if rng.random() < 0.1:
                 props.append(('NoSuchProp', 'x'))
             return CIMInstance(cls, properties=props)
@@ -252,7 +259,7 @@ class RepoMaterial:
             v = CIMInstance('VF_Other', properties=[
                 ('N', Uint32(3)), ('S', cimgen.string(rng))])
             va = [v.copy(), CIMInstance('VF_Other', properties=[
-                ('N', Uint32(4)), ('S', 'x')])]
+                ('N', Uint32(4)), ('S', 'x')])][:rng.choice([0, 1, 2, 2])]
             return self._shape('Echo_embedded', obj, 'string', v, va,
                                emb='instance')
         ns = self.real_ns()
